@@ -150,12 +150,17 @@ def tracker_ops(draw, visual, batch, nobj, scenes, occluder=False):
         k = draw(st.integers(1, 4))
         for tt in range(1, k + 1):
             ops.append({"op": "predict", "scene": 0, "default_scene": False, "dets": frame(3 * tt)})
-        ops.append({"op": "skip", "scene": 0, "n": n, "default_scene": False})
-        tail = draw(st.sampled_from(["wasted", "predict", "idle"]))
+        # (the default-scene twin of skip is a separate wrapper: it has to collect expired tracks too)
+        ops.append({"op": "skip", "scene": 0, "n": n, "default_scene": draw(st.booleans())})
+        tail = draw(st.sampled_from(["wasted", "predict", "idle", "stats", "clear"]))
         if tail == "predict":
             ops.append({"op": "predict", "scene": 0, "default_scene": False, "dets": frame(3 * k + 1)})
         elif tail == "idle":
             ops.append({"op": "idle", "scene": 0, "default_scene": False})
+        elif tail == "stats":
+            ops.append({"op": "stats"})
+        elif tail == "clear":
+            ops.append({"op": "clear_wasted"})
         ops.append({"op": "wasted"})
         ops.append({"op": "epoch", "scene": 0, "default_scene": False})
         return ops
